@@ -626,17 +626,25 @@ fn parse_non_constant_value(
             string.map(NonConstantValue::String).wrap_ok()
         })?;
 
-        to_control_flow::<_, Diagnostic>(|| {
-            let number = tokens.parse_source_of_kind(
-                IsographLangTokenKind::IntegerLiteral,
-                semantic_token_legend::ST_NUMBER_LITERAL,
-            )?;
-            number
-                .map(|number| {
-                    NonConstantValue::Integer(number.parse().expect("Expected valid integer"))
-                })
-                .wrap_ok()
-        })?;
+        if let Ok(number) = tokens.parse_source_of_kind(
+            IsographLangTokenKind::IntegerLiteral,
+            semantic_token_legend::ST_NUMBER_LITERAL,
+        ) {
+            // The token has been consumed, so we must not fall through to the other
+            // alternatives. The lexer guarantees that this is a sequence of digits
+            // (optionally preceded by a minus sign), so the only way for parsing to
+            // fail is if the value does not fit in an i64.
+            return match number.item.parse::<i64>() {
+                Ok(integer) => ControlFlow::Break(number.map(|_| NonConstantValue::Integer(integer))),
+                Err(_) => ControlFlow::Continue(Diagnostic::new(
+                    format!(
+                        "The integer `{}` is out of range. Integers must fit in 64 bits.",
+                        number.item
+                    ),
+                    number.location.to::<Location>().wrap_some(),
+                )),
+            };
+        }
 
         to_control_flow::<_, Diagnostic>(|| {
             let open = tokens.parse_token_of_kind(
